@@ -150,7 +150,7 @@ class Exec:
     def fr(self):
         return self.frames[-1]
 
-    def oblig(self, kind, label, st, goal, line=None, expect="unsat", info=None):
+    def oblig(self, kind, label, st, goal, line=None, expect="unsat", info=None, keep_invs=None):
         if self.spec_depth:
             return
         sel = getattr(self.ctx, "clause_sel", None)
@@ -165,7 +165,13 @@ class Exec:
         if st.pathid:
             name += "@" + st.pathid
         gfs = list(getattr(self, "global_facts", ()))
-        hyps = list(st.pc) + gfs
+        pc = list(st.pc)
+        if keep_invs is not None:
+            # the clause declares which loop invariants its proof needs: the others are left out of the hypotheses
+            # (fewer hypotheses can only make the proof harder, never unsound; it keeps the query small and stable)
+            tags = st.ghost.get("inv_tags", {})
+            pc = [f for f in pc if not (is_z3(f) and f.get_id() in tags and tags[f.get_id()][1].eq(f) and tags[f.get_id()][0] not in keep_invs)]
+        hyps = pc + gfs
         if gfs and is_z3(goal):
             # safety net: a global fact must not mention (as a free constant) something that a quantifier elsewhere in
             # this obligation binds -- that would be a definition made under a binder the engine did not register
@@ -332,9 +338,10 @@ class Exec:
                 if Nn is None:
                     return lambda j: E(to_z3(k), to_z3(j))
                 return lambda j: NF(Nn(to_z3(k), to_z3(j)), E(to_z3(k), to_z3(j)))
-            return lambda k, L=L, Es=Es, t=t: Tab(
+            LL = z3.Function(fresh_name(hint + "_lab"), I, I, I)
+            return lambda k, L=L, Es=Es, t=t, LL=LL: Tab(
                 L(to_z3(k)), {c: cell(E, Nn, k) for c, (E, Nn) in Es.items()},
-                Idx(hint), dict(t.cols))
+                Idx(hint, labels=(lambda j, k=k: LL(to_z3(k), to_z3(j)))), dict(t.cols))
         if isinstance(t, dsl.DictT):
             if t.items:
                 raise Unsupported("sequence of non-empty dicts")
@@ -1254,8 +1261,8 @@ class Exec:
             n, at = g
             view_upd = self.fr.contract.views if self.fr.contract else {}
             s.ghost = dict(s.ghost)
-            s.ghost["out"] = (n + 1, (lambda k, n=n, at=at, v=v: v if (isinstance(k, int) and isinstance(n, int) and k == n)
-                                      else merge_val(to_z3(k) == to_z3(n), v, at(k))))
+            s.ghost["out"] = (n + 1, memo_at(lambda k, n=n, at=at, v=v, s=s: v if (isinstance(k, int) and isinstance(n, int) and k == n)
+                                      else self.merge_struct(to_z3(k) == to_z3(n), v, at(k), s)))
             # ghost: where each value was yielded = the indices of the enclosing for-loops at that moment (outermost
             # first, padded with -1 to depth 3); readable in specs as src_[j][d]
             lidx = tuple(s.ghost.get("lidx", ()))[:3]
@@ -1268,6 +1275,33 @@ class Exec:
                 s.ghost["view_" + vname] = upd(self, s, s.ghost.get("view_" + vname), v)
             out.append(s)
         return out
+
+    def merge_struct(self, cond, a, b, st):
+        """ite over values that may be heap objects (yielded objects): objects/tables are merged field by field into a
+        new (lazily allocated) object"""
+        if isinstance(a, tuple) and isinstance(b, tuple) and len(a) == len(b):
+            return tuple(self.merge_struct(cond, x, y, st) for x, y in zip(a, b))
+        if isinstance(a, Ref) and isinstance(b, Ref):
+            if a.addr == b.addr:
+                return a
+            va, vb = st.get(a), st.get(b)
+            if isinstance(va, Obj) and isinstance(vb, Obj) and va.cls == vb.cls and list(va.f) == list(vb.f):
+                mv = Obj(va.cls, {k: self.merge_struct(cond, va.f[k], vb.f[k], st) for k in va.f})
+            elif isinstance(va, Tab) and isinstance(vb, Tab) and list(va.cols) == list(vb.cols):
+                la = va.idx.labels if va.idx is not None else None
+                lb = vb.idx.labels if vb.idx is not None else None
+                labels = (lambda k: merge_val(cond, la(k), lb(k))) if la and lb else None
+                mv = Tab(z3.If(cond, to_z3(va.n), to_z3(vb.n)),
+                         {c: (lambda k, fa=va.cols[c], fb=vb.cols[c]: merge_val(cond, fa(k), fb(k))) for c in va.cols},
+                         Idx("merged", labels=labels), dict(va.elts))
+            elif isinstance(va, DictV) and isinstance(vb, DictV) and not va.d and not vb.d:
+                mv = DictV({})
+            else:
+                raise Unsupported("merge of structured values %r / %r" % (va, vb))
+            addr = fresh_name("a")
+            LAZY_HEAP[addr] = mv
+            return Ref(addr)
+        return merge_val(cond, a, b)
 
     def snapshot(self, v, st):
         if isinstance(v, Ref):
@@ -1604,10 +1638,12 @@ class Exec:
                         objs.add(b.id)
         return names, objs
 
-    def eval_invs(self, spec, st, i_val, old_st):
+    def eval_invs(self, spec, st, i_val, old_st, iterable=None):
         env = dict(st.env)
         if i_val is not None:
             env["i_"] = i_val
+        if iterable is not None and iterable[1] is not None:
+            env["iter_"] = Seq(iterable[0], iterable[1])      # what the loop iterates over (as a sequence)
         for d, v in enumerate(st.ghost.get("lidx", ())):
             env["i%d_" % d] = v          # indices of the enclosing for-loops (outermost = i0_)
         g = st.ghost.get("out")
@@ -1619,9 +1655,18 @@ class Exec:
                 env[kname] = v
         # parameters and closure variables stay visible through lookup()
         res = []
-        for lab, text in spec.get("inv", []):
+        for ent in spec.get("inv", []):
+            lab, text = ent[0], ent[1]
             res.append((lab, self.spec_formula(text, env, st, old_st=old_st)))
         return res
+
+    @staticmethod
+    def inv_needs(spec):
+        """label -> set of invariant labels its preservation proof may use (None = all)"""
+        out = {}
+        for ent in spec.get("inv", []):
+            out[ent[0]] = (set(ent[2]) | {ent[0]}) if len(ent) > 2 and ent[2] is not None else None
+        return out
 
     def cut_loop(self, n, k, spec, st, N=None, elem=None):
         line = n.lineno
@@ -1631,7 +1676,7 @@ class Exec:
         # 1. invariant holds on entry
         st.ghost = dict(st.ghost)
         st.ghost["__entry_%d" % k] = entry
-        for lab, f in self.eval_invs(spec, st, 0 if is_for else None, old_st):
+        for lab, f in self.eval_invs(spec, st, 0 if is_for else None, old_st, (N, elem)):
             self.oblig("inv_init", "loop%d:%s" % (k, lab), st, f, line=line)
         # 2. havoc
         tnames = set()
@@ -1685,8 +1730,15 @@ class Exec:
             i = fresh(I, "i")
             h.assume(i >= 0)
             h.assume(to_z3(i) <= to_z3(N))
-        for lab, f in self.eval_invs(spec, h, i, old_st):
-            h.assume(_b(f))
+        tags = dict(h.ghost.get("inv_tags", {}))
+        for lab, f in self.eval_invs(spec, h, i, old_st, (N, elem)):
+            fb = _b(f)
+            h.assume(fb)
+            if is_z3(fb):
+                tags[fb.get_id()] = (lab, fb)
+        h.ghost = dict(h.ghost)
+        h.ghost["inv_tags"] = tags
+        needs = self.inv_needs(spec)
         outs = []
         # 3. one arbitrary iteration
         if is_for:
@@ -1720,9 +1772,9 @@ class Exec:
                     o.ghost["lidx"] = tuple(h.ghost.get("lidx", ()))
                 if o.ctl in (None, "continue"):
                     o.ctl = None
-                    for lab, f in self.eval_invs(spec, o, (i + 1) if is_for else None, old_st):
+                    for lab, f in self.eval_invs(spec, o, (i + 1) if is_for else None, old_st, (N, elem)):
                         self.oblig("inv_pres", "loop%d:%s" % (k, lab), o, f, line=line,
-                                   info=dict(split_on=i) if is_for else None)
+                                   info=dict(split_on=i) if is_for else None, keep_invs=needs.get(lab))
                     if "__measure" in o.ghost:
                         m0 = o.ghost["__measure"]
                         m1 = self.spec_value(spec["decreases"], dict(o.env), o)
